@@ -81,6 +81,8 @@ EntAtJ == BySlot(<< At(1, 4),     \* 2023-12-30 18:00
                     At(63, 2) >>) \* 2024-03-01 06:00
 EntRunJ == WithInvalid(<<1, 1, 1, 1, 2, 2, 2, 3, 2, 2, 3, 3, 3, 3, 4, 4>>)
 BoundsJQ == { At(1, 3), At(2, 2), At(3, 1), At(3, 2), At(3, 4), At(4, 2), At(18, 3), At(62, 1), At(62, 5), At(63, 2) }
+BoundsJL == { At(2, 2), At(18, 3), At(62, 5) }   \* the process-life generation (Chronicle_Gen, LifeSpec)
+BoundsYL == { At(2, 2), At(3, 2), At(4, 5) }
 NowsJQ == { At(63, 3) }             \* 2024-03-01 12:00
 NowsJT == { At(63, 3), At(63, 5) }
 
